@@ -17,6 +17,11 @@ pub fn bump(mut d: D4, limb: usize) -> D4 {
 }
 /// A different digest with the same limb sum (limb 0 + 1, limb 1 - 1): separates a
 /// limb-wise comparison from one that aggregates the limb differences first.
+/// Non-zero digests that a careless zero test classifies as zero: limbs summing to 0 mod p,
+/// and a single non-zero limb in the last / first position.
+pub const ZSUM: D4 = [1, P - 1, 0, 0];
+pub const ZLAST: D4 = [0, 0, 0, 5];
+pub const ZFIRST: D4 = [5, 0, 0, 0];
 pub fn shift(mut d: D4) -> D4 {
     d[0] = (d[0] + 1) % P;
     d[1] = if d[1] == 0 { P - 1 } else { d[1] - 1 };
@@ -40,11 +45,11 @@ impl Alpha {
         let b1 = dig(1);
         let x = dig(10);
         Self {
-            bh: vec![Z4, b1, dig(2), bump(b1, 3), shift(b1), bump(b1, 0), bump(b1, 1), bump(b1, 2)],
+            bh: vec![Z4, b1, dig(2), bump(b1, 3), shift(b1), bump(b1, 0), bump(b1, 1), bump(b1, 2), ZSUM],
             asset: vec![0, 1],
             fee: vec![0, 7],
             nullifier: vec![dig(20), dig(21), bump(dig(20), 2), dig(22), shift(dig(20)), bump(dig(20), 0), bump(dig(20), 1), bump(dig(20), 3)],
-            exits: vec![Z4, x, dig(11), bump(x, 1), shift(x), bump(x, 0), bump(x, 2), bump(x, 3)],
+            exits: vec![Z4, x, dig(11), bump(x, 1), shift(x), bump(x, 0), bump(x, 2), bump(x, 3), ZSUM],
             amounts: vec![0, 1, 5, 1 << 31, TWO32 - 1],
             pre: vec![dig(30), dig(31)],
             dnum: vec![0, 77],
